@@ -85,7 +85,11 @@ Definition check_accept (c : conf_tree) (pre post : ostate) (xpre xpost : list q
       flag (P_preserve (flatten t) qpost) 1603 ++
       flag (P_applies c qpost) 1604 ++
       flag (P_drains c t qpost) 1605 ++
-      (if P_reach t t' then [] else if window19 c t t' then [1650] else if window19b c t t' then [1651] else [1608]) ++
+      (if P_reach t t' then []
+       else if forallb (fun a => in_window19 c t a || in_window19b c t a) (lost_apps t t')
+            then (if existsb (in_window19 c t) (lost_apps t t') then [1650] else []) ++
+                 (if existsb (fun a => negb (in_window19 c t a)) (lost_apps t t') then [1651] else [])
+            else [1608]) ++
       flag (set_eqb (flatten (reload_tree c t)) qpost) 1690
   | _, _ => [1693]
   end.
